@@ -231,3 +231,69 @@ Theorem C09_mono_other_inst :
   <= nth j (predict_win (H := RNum GaussInst.PhiK GaussInst.PhiinvK) beta (l1 ++ (p1 ++ p :: p2) :: l2)) 0.
 Proof. exact (C09_mono_other GaussInst.PhiK GaussInst.PhiinvK GaussInst.GaussCDF_inst). Qed.
 Print Assumptions C09_mono_other_inst.
+
+(** ** Exactness of "two identical teams get one half each" for IEEE doubles.
+
+    [C09_two_identical_half_at] is [C09_two_identical_half] with each universally quantified law
+    replaced by its instance at the values that occur (the laws [x - x = 0], [0 / s = 0] are
+    false for NaN / infinities): the aggregate mean [m = fst (agg t)] and the scale
+    [s = pair_scale beta (length t + length t) (agg t) (agg t)]. *)
+From Flocq Require IEEE754.BinarySingleNaN IEEE754.Binary IEEE754.Bits.
+From OSV Require FloatInst.
+
+Theorem C09_two_identical_half_at : forall (F : Type) (N : Num F) (beta : F) (t : list (rating F)),
+  fsub (fst (agg t)) (fst (agg t)) = fzero ->
+  fdiv fzero (pair_scale beta (length t + length t) (agg t) (agg t)) = fzero ->
+  cdf (fzero : F) = fhalf ->
+  fsub (fone : F) fhalf = fhalf ->
+  predict_win beta [t; t] = [fhalf; fhalf].
+Proof. intros F N beta t L1 L2 L3 L4. exact (FloatInst.two_identical_half_at beta t L1 L2 L3 L4). Qed.
+Print Assumptions C09_two_identical_half_at.
+
+(** On Flocq's binary64 with the IEEE 754 round-to-nearest-even operations
+    ([FloatInst.B64Num]: [b64_plus mode_NE], [b64_minus mode_NE], [b64_mult mode_NE],
+    [b64_div mode_NE], [b64_sqrt mode_NE], [b64_opp], ...; the libm / CPython functions exp,
+    erfc, [x ** 2], inv_cdf are arbitrary parameters [f_exp f_erfc f_pow2 f_icdf]):
+    if libm's [erfc (-0.0) = 1.0] (bits 0x3FF0000000000000; true of glibc), the aggregate mean of
+    the team is finite, and the scale is finite and non-zero ([is_finite_strict]; both hold for
+    every valid input: finite mu, sigma and beta > 0 without overflow), then [predict_win] of
+    two identical teams is EXACTLY [0.5; 0.5] (bits 0x3FE0000000000000).  No hypothesis on beta
+    or on the team other than these is needed (it may be empty); the four laws are proved from
+    Flocq's specification of the operations: [x - x = +0] for finite [x], the scale is a
+    square root hence positive, [+0 / s = +0], [-(+0) / sqrt 2 = -0], [0.5 * 1 = 0.5],
+    [1 - 0.5 = 0.5]. *)
+Theorem C09_two_identical_half_binary64 :
+  forall (f_exp f_erfc f_pow2 f_icdf : Bits.binary64 -> Bits.binary64)
+         (beta : Bits.binary64) (t : list (rating Bits.binary64)),
+  f_erfc (Binary.B754_zero 53%Z 1024%Z true) = Bits.b64_of_bits 4607182418800017408%Z ->
+  Binary.is_finite 53%Z 1024%Z
+    (fst (@agg Bits.binary64 (FloatInst.B64Num f_exp f_erfc f_pow2 f_icdf) t)) = true ->
+  Binary.is_finite_strict 53%Z 1024%Z
+    (@pair_scale Bits.binary64 (FloatInst.B64Num f_exp f_erfc f_pow2 f_icdf) beta (length t + length t)%nat
+       (@agg Bits.binary64 (FloatInst.B64Num f_exp f_erfc f_pow2 f_icdf) t)
+       (@agg Bits.binary64 (FloatInst.B64Num f_exp f_erfc f_pow2 f_icdf) t)) = true ->
+  @predict_win Bits.binary64 (FloatInst.B64Num f_exp f_erfc f_pow2 f_icdf) beta [t; t]
+  = [Bits.b64_of_bits 4602678819172646912%Z; Bits.b64_of_bits 4602678819172646912%Z].
+Proof. exact FloatInst.two_identical_half_binary64. Qed.
+Print Assumptions C09_two_identical_half_binary64.
+
+(** the two constants are the doubles 1.0 and 0.5 *)
+Example C09_binary64_constants :
+  Binary.B2R 53%Z 1024%Z (Bits.b64_of_bits 4607182418800017408%Z) = 1
+  /\ Binary.B2R 53%Z 1024%Z (Bits.b64_of_bits 4602678819172646912%Z) = / 2.
+Proof. exact (conj FloatInst.b64_bits_one FloatInst.b64_bits_half). Qed.
+
+(** non-vacuity: the team [(mu, sigma) = (25.0, 25/3); (30.5, 7.25)], beta = 25/6, with stand-ins
+    for the libm parameters (erfc := fun _ => 1.0, x ** 2 := x * x) satisfies the hypotheses *)
+Example C09_two_identical_half_binary64_ex :
+  let N := FloatInst.B64Num (fun x => x) (fun _ => Bits.b64_of_bits 4607182418800017408%Z)
+             (fun x => Bits.b64_mult BinarySingleNaN.mode_NE x x) (fun x => x) in
+  let t := [mkRating (Bits.b64_of_bits 4627730092099895296%Z) (Bits.b64_of_bits 4620880867666602667%Z) 0%Z NmNone;
+            mkRating (Bits.b64_of_bits 4629278204471803904%Z) (Bits.b64_of_bits 4619848792751996928%Z) 1%Z NmNone] in
+  let beta := Bits.b64_of_bits 4616377268039232171%Z in
+  Binary.is_finite 53%Z 1024%Z (fst (@agg Bits.binary64 N t)) = true
+  /\ Binary.is_finite_strict 53%Z 1024%Z
+       (@pair_scale Bits.binary64 N beta (length t + length t)%nat (@agg Bits.binary64 N t) (@agg Bits.binary64 N t)) = true
+  /\ @predict_win Bits.binary64 N beta [t; t]
+     = [Bits.b64_of_bits 4602678819172646912%Z; Bits.b64_of_bits 4602678819172646912%Z].
+Proof. exact (conj (proj1 FloatInst.ex_hyps) (conj (proj2 FloatInst.ex_hyps) FloatInst.ex_value)). Qed.
